@@ -50,6 +50,9 @@ FIXED_COMMITS = {"K-catch-pop": "790993c", "K-stale-error-ip-a": "4f459d5", "K-s
 # ---- other properties: (property, id, status, commit, title, scenario dict)
 from sim.props import c09, c15, c12, c01
 OTHER = [
+ ("C15", "K-reset-loses-core-globals", "fixed", "11a684a",
+  "after Vm::reset() the globals defined by the core library (Error and its subclasses, StopIter, ...) were gone, so e.g. `.map()` iterators failed with `Undefined variable 'StopIter'`: a reset interpreter was distinguishable from a new one",
+  {"ir": {"session": [["reset"], ["snip", [["corelib", 1]]]], "sites": 0, "mod_sites": {}}, "faults": {}}),
  ("C01", "K-upvalue-dropped-fiber", "fixed", "e281e02",
   "a closure over a variable living on the value stack of a suspended fiber kept only a raw pointer into that stack: once the fiber object was dropped and collected the closure read/wrote reclaimed memory",
   {"ir": {"gadgets": [["chain", "open_capture_on_dropped_fiber", [], "vec", 1000, 3]]}, "gc_tape": "ff" * 64, "gc_rate": 2}),
